@@ -244,13 +244,15 @@ def run(tier):
                         pr.stdin.write(data[i:i + step])
                         pr.stdin.flush()
                         time.sleep(0.003)
-                    pr.stdin.close()
                 except BrokenPipeError:
                     pass
-                so = pr.stdout.read()
-                se = pr.stderr.read()
-                rc = pr.wait(timeout=30)
-                r = subprocess.CompletedProcess(args, rc, so, se)
+                try:
+                    so, se = pr.communicate(timeout=30)  # closes stdin, then collects the outputs
+                except subprocess.TimeoutExpired:
+                    pr.kill()
+                    pr.communicate()
+                    raise
+                r = subprocess.CompletedProcess(args, pr.returncode, so, se)
             else:
                 r = subprocess.run(args, capture_output=True, env=env, timeout=30, input=text.encode())
         except subprocess.TimeoutExpired:
